@@ -46,6 +46,7 @@ TraceNext ==
   /\ LET e == Trace[l] IN
        CASE e.op = "sweep" -> CheckSweep(e)
          [] e.op = "doc" -> CheckDoc(e)
+         [] e.op = "panic" -> Report(l, 0, PanicFail)
   /\ l' = l + 1
   /\ UNCHANGED <<cfg, inp>>
 
